@@ -193,7 +193,7 @@ check("C06", "collection removes exactly the garbage, converges, is not starved"
       "Trusted: reachability computed by the harness over blobs read back through the API and the index obtained through the add-only hook VerifIndexJSON; ambiguous policy combinations (Untagged off + "
       "ReferrersDangling on for never-existing subjects) and empty responses are not asserted.",
       "DESIGN.md §3 C06",
-      [R("^TestC06$", 6000, 100000, steps=30)])
+      [R("^TestC06$", 6000, 100000, steps=30), R("^TestC06Monotone$", 3200, 60000, steps=30)])
 
 check("C15", "any request gets a well-formed answer", "exploration",
       "grammar-based request generator in rapid sequences over prepared states + the same generator under Go's native coverage-guided fuzzer (thorough); oracle = no panic, no 5xx on healthy storage, OCI error schema + code table + condition-specific codes, independent router",
